@@ -179,7 +179,8 @@ Ipv6Compressed(text) ==
   LET sp    == Partition(text, PCT)
       addr  == sp[1]
       scope == sp[3]
-      scopeOK == ~sp[2] \/ (Len(scope) > 0 /\ ~Has(scope, PCT))
+      \* (brackets inside the literal are refused by parse_ipv6_hostname itself: ipaddress takes any text as a zone)
+      scopeOK == (~sp[2] \/ (Len(scope) > 0 /\ ~Has(scope, PCT))) /\ ~Has(text, LBR) /\ ~Has(text, RBR)
       ps0   == Split(addr, COLON)
       v4    == IF Len(ps0) > 0 /\ Has(ps0[Len(ps0)], DOT) THEN StrictIpv4(ps0[Len(ps0)]) ELSE [ok |-> FALSE]
       hasV4 == Len(ps0) > 0 /\ Has(ps0[Len(ps0)], DOT)
@@ -613,6 +614,11 @@ HostCat == <<
   H(S("08.0.0.1"), "ipv4-bad-octal", 0),
   H(S("0x.0.0.1"), "ipv4-bad-hex", 0),
   H(S("0"), "ipv4-int", 0),
+  \* long runs of digits that continue as an ordinary name (nothing numeric about them)
+  H(Rep(49, 40) \o S(".cdn.x"), "digits-then-name", 0),
+  H(Rep(49, 32) \o S("a"), "digits-then-name", 0),
+  H(Rep(49, 30) \o S(".") \o Rep(50, 30) \o S(".x"), "digits-then-name", 0),
+  H(S("0x") \o Rep(102, 34) \o S("g.x"), "digits-then-name", 0),
   \* ---- IPv6 literals
   H(S("[::1]"), "ipv6", 2),
   H(S("[0:0:0:0:0:0:0:1]"), "ipv6-expanded", 2),
@@ -643,6 +649,10 @@ HostCat == <<
   H(S("[::1.2.3.256]"), "ipv6-invalid", 0),
   H(S("[::01.2.3.4]"), "ipv6-invalid", 0),
   H(S("[::1%]"), "ipv6-invalid", 0),
+  H(S("[::1%]]"), "ipv6-zone-bracket", 0),
+  H(S("[fe80::1%[eth0]"), "ipv6-zone-bracket", 0),
+  H(S("[fe80::1%a]b]"), "ipv6-zone-bracket", 0),
+  H(S("[[::1]]"), "ipv6-zone-bracket", 0),
   \* ---- forbidden characters, empty
   H(S("a b"), "forbidden-char", 0),
   H(S("a%41"), "forbidden-char", 0),
